@@ -297,6 +297,25 @@ inline std::vector<uint64_t> level_stream(Rng& r, unsigned lg_k, unsigned levels
   return keys;
 }
 
+// ---------------------------------------------------------------- rare inputs with coupon value >= 32
+// uint64 items found offline by a 2^33 scan (h2 with >= 31 leading zeros).  Their coupons are recomputed here with the
+// reference hash; a key whose value is below 32 is dropped (the monitors count how many survived).  Values >= 32 live
+// in kxq1, need the 6th bit of the 6-bit packing and are exceptions in HLL_4 for any realistic cur_min.
+struct RareKey { uint64_t x; uint32_t coupon; };
+inline const std::vector<RareKey>& rare_keys() {
+  static std::vector<RareKey> keys;
+  static bool built = false;
+  if (!built) {
+    built = true;
+    static const uint64_t cand[] = {5366044298ULL, 8253553449ULL, 5411159528ULL, 8976502966ULL, 10935192973ULL, 8971523326ULL};
+    for (uint64_t x : cand) {
+      const uint32_t c = coupon_of_hash(ref_hash_u64(x, HLL_HASH_SEED));
+      if (cp_value(c) >= 32) keys.push_back(RareKey{x, c});
+    }
+  }
+  return keys;
+}
+
 inline bool rel_eq(double a, double b, double tol) {
   if (a == b) return true;
   if (std::isnan(a) || std::isnan(b)) return false;
